@@ -19,6 +19,7 @@ import (
 	gp2p "github.com/leprosus/golang-p2p"
 
 	"github.com/my-cloud/ruthenium/validatornode/application"
+	"github.com/my-cloud/ruthenium/validatornode/domain/ledger"
 	"github.com/my-cloud/ruthenium/validatornode/presentation/api/payment"
 
 	"ruverif/internal/node"
@@ -157,6 +158,67 @@ func d9() (bool, string) {
 	}
 	n.Pool.Validate(last + s.Interval)
 	return true, fmt.Sprintf("a transaction listing the same output twice and paying out %d from a single %d output was admitted to the pool", 2*s.Genesis-2*s.MinFee, s.Genesis)
+}
+
+// ---- D1b: an adversarial chain re-creates a consumed transaction id (a byte-identical clone of the old
+// reward) and spends the reference again: the verifier values the OLD, grown instance (it judges a block
+// against the state two blocks back) but the replay consumes the FRESH one
+func d1b() (bool, string) {
+	s := settings()
+	s.HalfLife = 3 * float64(s.Interval)
+	s.Base = 50_000_000
+	s.Limit = 1_000_000_000
+	adv, host := node.NewWallet(3), node.NewWallet(0)
+	at := func(k int) int64 { return T0 + int64(k)*s.Interval }
+	genesis := node.RewardRaw(adv.Address, true, T0, s.Genesis)
+	mk := func(ts int64, txs ...*node.RawTx) *node.RawBlock {
+		rb := &node.RawBlock{Timestamp: ts}
+		rb.SetTxs(txs...)
+		return rb
+	}
+	valueAt := func(created, now int64) uint64 {
+		u := ledger.NewUtxo(ledger.NewInputInfo(0, genesis.Id), ledger.NewOutput(adv.Address, true, s.Genesis), created)
+		return u.Value(now, s.HalfLife, s.Base, s.Limit)
+	}
+	b0 := mk(at(0), genesis)
+	b0.Added = []string{adv.Address}
+	b1 := mk(at(1), node.RewardRaw(adv.Address, false, at(1), 0))
+	b2 := mk(at(2), node.RewardRaw(adv.Address, false, at(2), 0))
+	// block 3: burn the old output as fee, re-mint a byte-identical clone of the genesis reward
+	x := &node.RawTx{Timestamp: at(3), Inputs: []node.RawInput{{OutputIndex: 0, TransactionId: genesis.Id, PublicKey: adv.PubHex, Signature: adv.Sign(0, genesis.Id)}},
+		Outputs: []node.RawOutput{{Address: adv.Address, IsYielding: false, Value: 0}}}
+	x.Id, _ = x.ComputeId()
+	clone := node.RewardRaw(adv.Address, true, T0, s.Genesis)
+	b3 := mk(at(3), x, clone)
+	// block 4: spend the reference again, paying out the OLD instance's value
+	old := valueAt(at(0), at(4))
+	fresh := valueAt(at(3), at(4))
+	y := &node.RawTx{Timestamp: at(4), Inputs: []node.RawInput{{OutputIndex: 0, TransactionId: genesis.Id, PublicKey: adv.PubHex, Signature: adv.Sign(0, genesis.Id)}},
+		Outputs: []node.RawOutput{{Address: adv.Address, IsYielding: false, Value: old - s.MinFee}}}
+	y.Id, _ = y.ComputeId()
+	b4 := mk(at(4), y, node.RewardRaw(adv.Address, false, at(4), 0))
+	chain, err := node.Relink([]*node.RawBlock{b0, b1, b2, b3, b4})
+	if err != nil {
+		return false, "build: " + err.Error()
+	}
+	n := node.New("n", s, host.Address)
+	n.Pool.Validate(at(0))
+	bytes, _ := json.Marshal(chain)
+	n.Senders.Set([]application.Sender{&node.Sender{TargetValue: "adv", Blocks: func(h uint64) ([]byte, error) {
+		if h == 0 {
+			return bytes, nil
+		}
+		return []byte("[]"), nil
+	}}})
+	n.Chain.Update(at(4))
+	got := n.AllBlocks()
+	if len(got) != 5 || node.HashHex(got[4]) != node.HashHex(chain[4]) {
+		return false, fmt.Sprintf("the chain was not adopted (%d blocks): %v", len(got), tail(n.Log.Drain(), 3))
+	}
+	if old-s.MinFee+s.MinFee > fresh {
+		return true, fmt.Sprintf("adopted a chain whose block 4 pays out %d (+ fee %d) while the output it consumes is worth %d at that block's time (the clone re-minted in block 3); the verifier valued the old instance at %d", old-s.MinFee, s.MinFee, fresh, old)
+	}
+	return false, "adopted, but no excess value"
 }
 
 // ---- D3: honest block with a yielding output to an address removed by the previous block is rejected
@@ -417,6 +479,7 @@ func d7() (bool, string) {
 
 var witnesses = []witness{
 	{"D1", "C01", "C01/fee-sum-wraps-uint64", d1, false},
+	{"D1b", "C01", "C01/recreated-id-valued-as-old-instance", d1b, false},
 	{"D3", "C05", "C05/competitor-tip/yield-to-address-removed-by-previous-block", d3, false},
 	{"D9", "C11", "C11/same-output-twice-admitted", d9, false},
 	{"D2", "C05", "C05/producer-includes-spend-of-last-block-output", d2, false},
